@@ -55,10 +55,15 @@ pub fn kb_source(depth: usize) -> Vec<String> {
         let mv: Vec<String> = (0..depth - 1).map(|i| format!("$M{}", i)).collect();
         let mgen: String = mv.iter().map(|n| format!("num({})", n)).collect::<Vec<_>>().join(", ");
         v.push(format!("spinm :- {}, {} > 100.", mgen, mv[0]));
+        // the answer comes out of the search itself, at its very end: a search that is stopped
+        // half way has no answer
+        let lv: Vec<String> = (0..depth.saturating_sub(3).max(1)).map(|i| format!("$L{}", i)).collect();
+        let lgen: String = lv.iter().map(|n| format!("num({})", n)).collect::<Vec<_>>().join(", ");
+        let mlast: String = lv.iter().map(|n| format!("{} == 12", n)).collect::<Vec<_>>().join(", ");
+        v.push(format!("latem :- {}, {}.", lgen, mlast));
         v.push("med($X) :- spinm, $X = never.".into());
         v.push("med($X) :- spinm, $X = never.".into());
-        v.push("med($X) :- spinm, $X = never.".into());
-        v.push("med(done).".into());
+        v.push("med($X) :- latem, $X = found.".into());
     }
     // answers first, then a long search without answers
     v.push("slow($X) :- color($X).".into());
